@@ -64,6 +64,9 @@ class Report:
 
     def violation(self, what, replay):
         """A counterexample that reproduced against the real code and is not a known finding."""
+        if getattr(self, 'quiet', False):        # sub-report of an aggregating check: the aggregator decides what to propagate
+            self.violations.append((what, replay))
+            return
         d = os.path.join(OUT, 'replays', self.pid)
         os.makedirs(d, exist_ok=True)
         n = len(os.listdir(d))
@@ -76,10 +79,14 @@ class Report:
 
     def known_finding(self, key, what=None):
         self.known_hits.append((key, what or self.known.get(key, '')))
+        if getattr(self, 'quiet', False):
+            return
         print('KNOWN-FINDING: property=%s %s' % (self.pid, what or self.known.get(key, key)), flush=True)
 
     def harness_error(self, msg):
         self.errors.append(msg)
+        if getattr(self, 'quiet', False):
+            return
         print('HARNESS-ERROR: ' + msg, flush=True)
 
     def assume(self, *texts):
